@@ -396,6 +396,11 @@ def undeclaredDeep (comps : List (Str × Json)) : Nat → List Json → Json →
       if is.isEmpty then [] else l.flatMap fun x => undeclaredDeep comps fuel is x path
     | _ => []
 
+/-- a member key as a JSON-pointer reference token (RFC 6901): `~` ↦ `~0`, `/` ↦ `~1`, so that a
+path stays readable when a map key contains a slash. -/
+def ptrEscape (k : Str) : Str :=
+  k.flatMap fun c => if c = '~' then ['~', '0'] else if c = '/' then ['~', '1'] else [c]
+
 /-- where validation fails: the deepest members / elements that satisfy none of the schemas
 applying at their position (diagnostic only; `index` paths for arrays). -/
 def failingPaths (comps : List (Str × Json)) : Nat → List Json → Json → Str → List Str
@@ -407,7 +412,7 @@ def failingPaths (comps : List (Str × Json)) : Nat → List Json → Json → S
       | .obj members =>
         members.flatMap fun m =>
           let ms := ss.flatMap fun s => memberSchemas comps (fuel + 1) s m.1
-          if ms.isEmpty then [] else failingPaths comps fuel ms m.2 (if path.isEmpty then m.1 else path ++ ('/' :: m.1))
+          if ms.isEmpty then [] else failingPaths comps fuel ms m.2 (if path.isEmpty then ptrEscape m.1 else path ++ ('/' :: ptrEscape m.1))
       | .arr l =>
         let is := ss.flatMap fun s => itemSchemas comps (fuel + 1) s
         if is.isEmpty then [] else
